@@ -51,6 +51,8 @@ structure WFChart (c : Chart) : Prop where
       c.parentFor m = some p ∧ m ≠ h
   /-- W7: transitions connect states -/
   transitions : ∀ t ∈ c.transitions, c.hasState t.source = true ∧ ∀ tg, t.target = some tg → c.hasState tg = true
+  /-- W7: only basic, compound and orthogonal states own transitions -/
+  sourceKind : ∀ t ∈ c.transitions, ∀ k, c.kindOf t.source = some k → k.ownsTransitions = true
   /-- W8: no transition crosses between sibling regions of an orthogonal state -/
   noCross : ∀ t ∈ c.transitions, ∀ tg l, t.target = some tg → c.lca t.source tg = some l →
     c.kindOf l = some .orthogonal → lastBefore c t.source (some l) = lastBefore c tg (some l)
